@@ -67,7 +67,7 @@ structure Inv (cfg : Cfg) (s : St) : Prop where
   head : ∀ w off, s.pc w = .inWrite off → 0 < off → (glue s.wire).head? = some ⟨w, 0, off⟩
   okFull : ∀ w n, (s.pc w = .wrote n true ∨ s.pc w = .done n true) → n = cfg.lens w
   failedClosing : ∀ w n, s.pc w = .done n false → 0 < n → s.closing = true
-  closerEx : s.closing = true → s.closed = true ∨ ∃ w n, s.pc w = .closer n
+  closerEx : s.closing = true → s.closed = true ∨ s.ext = true ∨ ∃ w n, s.pc w = .closer n
   closedClosing : s.closed = true → s.closing = true
   closerClosing : ∀ w n, s.pc w = .closer n → s.closing = true
   todoQ : ∀ w ∈ s.todo, s.pc w = .queued
@@ -88,14 +88,15 @@ theorem setMany_mem (pc : Nat → Pc) (ws : List Nat) (v : Pc) (x : Nat) (h : x 
 theorem setMany_not_mem (pc : Nat → Pc) (ws : List Nat) (v : Pc) (x : Nat) (h : x ∉ ws) : setMany pc ws v x = pc x := by
   simp [setMany, h]
 
-theorem closerEx_mono {pc pc' : Nat → Pc} {closing closed : Bool}
+theorem closerEx_mono {pc pc' : Nat → Pc} {closing closed ext : Bool}
     (hpres : ∀ x n, pc x = .closer n → pc' x = .closer n)
-    (hce : closing = true → closed = true ∨ ∃ w n, pc w = .closer n) :
-    closing = true → closed = true ∨ ∃ w n, pc' w = .closer n := by
+    (hce : closing = true → closed = true ∨ ext = true ∨ ∃ w n, pc w = .closer n) :
+    closing = true → closed = true ∨ ext = true ∨ ∃ w n, pc' w = .closer n := by
   intro hc
-  rcases hce hc with h | ⟨w, n, h⟩
+  rcases hce hc with h | h | ⟨w, n, h⟩
   · exact Or.inl h
-  · exact Or.inr ⟨w, n, hpres w n h⟩
+  · exact Or.inr (Or.inl h)
+  · exact Or.inr (Or.inr ⟨w, n, hpres w n h⟩)
 
 theorem inv_init (cfg : Cfg) : Inv cfg init := by
   constructor
@@ -258,10 +259,9 @@ theorem inv_step_nopiece (cfg : Cfg) (hser : cfg.serialised = true) (s s' : St) 
     simp only [step] at hs
     split at hs
     · rename_i hg
-      obtain ⟨hc, hw⟩ := hg
       injection hs with hs; subst hs
       have hsent : (Pc.wrote 0 false).sent = (s.pc w).sent := by
-        rcases hw with hw | ⟨hw, _⟩ <;> simp [hw, Pc.sent]
+        rcases hg with ⟨_, hw⟩ | ⟨_, hw, _⟩ <;> simp [hw, Pc.sent]
       refine ⟨hacc.congr (sent_setPc _ _ _ hsent), ?_, ?_, ?_, ?_, closerEx_mono (by grind [setPc, setMany]) hce, ?_, ?_, ?_, ?_, ?_⟩
       all_goals grind [setPc]
     · simp at hs
@@ -292,26 +292,51 @@ theorem inv_step_nopiece (cfg : Cfg) (hser : cfg.serialised = true) (s s' : St) 
       case ce =>
         intro _
         by_cases hc : s.closing = true
-        · rcases hce hc with h | ⟨w1, n1, h1⟩
+        · rcases hce hc with h | h | ⟨w1, n1, h1⟩
           · exact Or.inl h
-          · refine Or.inr ⟨w1, n1, ?_⟩
+          · exact Or.inr (Or.inl h)
+          · refine Or.inr (Or.inr ⟨w1, n1, ?_⟩)
             have : w1 ≠ w := by intro e; rw [e, hw] at h1; cases h1
             simp only [setPc_other _ _ _ _ this, h1]
-        · exact Or.inr ⟨w, n, by simp [setPc_same, hc]⟩
+        · exact Or.inr (Or.inr ⟨w, n, by simp [setPc_same, hc]⟩)
       all_goals grind [setPc]
     · simp at hs
   | closeFinish w =>
     simp only [step] at hs
     split at hs
     · rename_i n hw
-      injection hs with hs; subst hs
-      refine ⟨hacc.congr (sent_setPc _ _ _ (by simp [hw, Pc.sent])), ?_, ?_, ?_, ?_, ?_, ?_, ?_, ?_, ?_, hdisj⟩
-      all_goals grind [setPc]
+      split at hs
+      · injection hs with hs; subst hs
+        refine ⟨hacc.congr (sent_setPc _ _ _ (by simp [hw, Pc.sent])), ?_, ?_, ?_, ?_, ?_, ?_, ?_, ?_, ?_, hdisj⟩
+        all_goals grind [setPc]
+      · simp at hs
     · simp at hs
   | shutdown =>
     simp only [step] at hs
     injection hs with hs; subst hs
     exact ⟨hacc, hmutex, hhead, hok, fun _ _ _ _ => rfl, fun _ => Or.inl rfl, fun _ => rfl, fun _ _ _ => rfl, htq, hqq, hdisj⟩
+  | cancelCtx w =>
+    simp only [step] at hs
+    split at hs
+    · injection hs with hs; subst hs
+      exact ⟨hacc, hmutex, hhead, hok, hfc, hce, hcc, hrc, htq, hqq, hdisj⟩
+    · simp at hs
+  | shutQuit =>
+    simp only [step] at hs
+    split at hs
+    · injection hs with hs; subst hs
+      exact ⟨hacc, hmutex, hhead, hok, fun _ _ _ _ => rfl, fun _ => Or.inr (Or.inl rfl), fun _ => rfl, fun _ _ _ => rfl, htq, hqq, hdisj⟩
+    · simp at hs
+  | flusherQuit =>
+    simp only [step] at hs
+    split at hs
+    · split at hs
+      · injection hs with hs; subst hs
+        refine ⟨hacc, hmutex, hhead, hok, hfc, hce, hcc, hrc, ?_, ?_, ?_⟩
+        all_goals grind
+      · injection hs with hs; subst hs
+        exact ⟨hacc, hmutex, hhead, hok, hfc, hce, hcc, hrc, htq, hqq, hdisj⟩
+    · simp at hs
 
 /-- the invariant is preserved by every action of the serialised machine -/
 theorem inv_step (cfg : Cfg) (hser : cfg.serialised = true) (s s' : St) (a : Act) (h : Inv cfg s)
@@ -343,8 +368,8 @@ theorem torn_writer_can_close (cfg : Cfg) (s : St) (w n : Nat) (h : s.pc w = .wr
   · simp only [step, setPc_same]
 
 theorem closer_can_finish (cfg : Cfg) (s : St) (w n : Nat) (h : s.pc w = .closer n) :
-    ∃ s1, step cfg s (.closeFinish w) = some s1 ∧ s1.closed = true :=
-  ⟨{ s with pc := setPc s.pc w (.done n false), closed := true }, by simp only [step, h], rfl⟩
+    ∃ s1, run cfg s [.cancelCtx w, .closeFinish w] = some s1 ∧ s1.closed = true :=
+  ⟨{ s with quit := true, pc := setPc s.pc w (.done n false), closed := true }, by simp [run, step, h], rfl⟩
 
 /-- every piece on the wire belongs to some chunk of the same frame -/
 theorem foldl_addPiece_ids (wire : List Piece) : ∀ (acc : List Chunk),
@@ -497,7 +522,17 @@ theorem done_step (cfg : Cfg) (s s' : St) (a : Act) (inv : Inv cfg s) (w n : Nat
         · exact hd
       · simp at hs
     · simp at hs
-  | submit x | cancel x | enqueue x | enter x | quit x | ret x | close x | closeFinish x =>
+  | closeFinish x =>
+    simp only [step] at hs
+    split at hs
+    · split at hs
+      · injection hs with hs; subst hs
+        refine ⟨?_, rfl⟩
+        have hxw : w ≠ x := by intro e; subst e; simp_all
+        simp only [setPc_other _ _ _ _ hxw, hd]
+      · simp at hs
+    · simp at hs
+  | submit x | cancel x | enqueue x | enter x | quit x | ret x | close x =>
     simp only [step] at hs
     split at hs <;> first
       | (injection hs with hs; subst hs
@@ -513,6 +548,21 @@ theorem done_step (cfg : Cfg) (s s' : St) (a : Act) (inv : Inv cfg s) (w n : Nat
   | shutdown =>
     simp only [step] at hs
     injection hs with hs; subst hs; exact ⟨hd, rfl⟩
+  | cancelCtx x =>
+    simp only [step] at hs
+    split at hs
+    · injection hs with hs; subst hs; exact ⟨hd, rfl⟩
+    · simp at hs
+  | shutQuit =>
+    simp only [step] at hs
+    split at hs
+    · injection hs with hs; subst hs; exact ⟨hd, rfl⟩
+    · simp at hs
+  | flusherQuit =>
+    simp only [step] at hs
+    split at hs
+    · split at hs <;> (injection hs with hs; subst hs; exact ⟨hd, rfl⟩)
+    · simp at hs
 
 theorem done_run (cfg : Cfg) (hser : cfg.serialised = true) (w n : Nat) (ok : Bool) : ∀ (as : List Act) (s s' : St),
     Inv cfg s → s.pc w = .done n ok → run cfg s as = some s' →
